@@ -32,7 +32,7 @@ TPiece == 0 .. (Len(plen) - 1)
 InitFrom(e) ==
     /\ plen = e.plen /\ stopTimeout = e.stopTimeoutMs
     /\ status = "Stopped" /\ have = {} /\ bfKnown = FALSE /\ good = {} /\ stale = FALSE /\ filesExist = "none"
-    /\ peers = 0 /\ downloads = 0 /\ files = 0 /\ doVerify = FALSE /\ wantRun = FALSE /\ ncmd = 0
+    /\ peers = 0 /\ downloads = 0 /\ files = 0 /\ doVerify = FALSE /\ wantRun = FALSE /\ addr = FALSE /\ parked = FALSE /\ ncmd = 0
     /\ stopDue = -1 /\ startDue = -1 /\ verifyDue = -1 /\ finalActive = FALSE /\ vphase = "none"
 
 TraceInit == l = 2 /\ Trace[1].ev = "init" /\ InitFrom(Trace[1]) /\ TLCSet(1, 1)
@@ -41,7 +41,7 @@ TrReset ==
     /\ Ev.ev = "init"
     /\ plen' = Ev.plen /\ stopTimeout' = Ev.stopTimeoutMs
     /\ status' = "Stopped" /\ have' = {} /\ bfKnown' = FALSE /\ good' = {} /\ stale' = FALSE /\ filesExist' = "none"
-    /\ peers' = 0 /\ downloads' = 0 /\ files' = 0 /\ doVerify' = FALSE /\ wantRun' = FALSE /\ ncmd' = 0
+    /\ peers' = 0 /\ downloads' = 0 /\ files' = 0 /\ doVerify' = FALSE /\ wantRun' = FALSE /\ addr' = FALSE /\ parked' = FALSE /\ ncmd' = 0
     /\ stopDue' = -1 /\ startDue' = -1 /\ verifyDue' = -1 /\ finalActive' = FALSE /\ vphase' = "none"
     /\ l' = l + 1
 
@@ -77,7 +77,11 @@ TrRet ==
          [] Ev.op = "verify" -> /\ verifyDue' = (IF vphase = "done" THEN -1 ELSE Ev.t + VerifySlack) /\ stopDue' = -1 /\ startDue' = -1
          [] OTHER            -> UNCHANGED <<stopDue, startDue, verifyDue>>
     /\ vphase' = IF Ev.op = "verify" THEN "none" ELSE vphase
-    /\ l' = l + 1 /\ UNCHANGED <<vars, plen, stopTimeout, finalActive>>
+    \* @obligation C04.L5.addpeer  "addseed" = AddPeer with the address of a reachable honest seed (CmdAddPeer): demanded to take
+    \* effect when the torrent runs (status of the last loop snapshot; the driver issues no other command meanwhile)
+    /\ addr' = IF Ev.op = "addseed" THEN (addr \/ Running) ELSE addr
+    /\ l' = l + 1 /\ UNCHANGED <<status, have, bfKnown, good, stale, filesExist, peers, downloads, files, doVerify, wantRun, parked, ncmd>>
+    /\ UNCHANGED <<plen, stopTimeout, finalActive>>
 
 \* @obligation C04.L2 / C04.L3 / C04.L5 on every loop snapshot
 TrSnap ==
@@ -104,20 +108,24 @@ TrSnap ==
           /\ stale' = IF vfin THEN FALSE ELSE stale
           /\ vphase' = IF vphase \in {"called", "seen"} /\ (vfin \/ vbad) THEN "done"
                         ELSE IF vphase = "called" /\ Ev.doVerify THEN "seen" ELSE vphase
+          \* PeerConnect before the bitfield is known: `parked` = the torrent has had a peer since Allocating / Verifying (its
+          \* announcements were parked); it lasts while the torrent runs with a peer. The address is consumed by the dial.
+          /\ parked' = (run /\ Ev.peers > 0 /\ (parked \/ Ev.status \in {"Allocating", "Verifying"}))
+          /\ addr' = (addr /\ run /\ Ev.peers = 0)
     /\ l' = l + 1 /\ KeepCfg /\ UNCHANGED <<good, finalActive>>
 
 TrWrite ==                                        \* storage truth after a piece write
     /\ Ev.ev = "w"
     /\ good' = IF Ev.p \in TPiece THEN (IF Ev.pgood THEN good \cup {Ev.p} ELSE good \ {Ev.p}) ELSE good
     /\ l' = l + 1 /\ KeepCfg
-    /\ UNCHANGED <<status, have, stale, peers, downloads, files, doVerify, stopDue, startDue, verifyDue, finalActive, vphase>>
+    /\ UNCHANGED <<status, have, stale, peers, downloads, files, doVerify, addr, parked, stopDue, startDue, verifyDue, finalActive, vphase>>
 
 TrMut ==                                          \* files changed by the harness while Stopped
     /\ Ev.ev = "mut"
     /\ good' = SetOf(Ev.good)
     /\ stale' = (stale \/ Ev.kind \in {"corrupt", "truncate"})
     /\ l' = l + 1 /\ KeepCfg
-    /\ UNCHANGED <<status, have, peers, downloads, files, doVerify, stopDue, startDue, verifyDue, finalActive, vphase>>
+    /\ UNCHANGED <<status, have, peers, downloads, files, doVerify, addr, parked, stopDue, startDue, verifyDue, finalActive, vphase>>
 
 \* @obligation C04.L3  Stopped: no open data files (handles counted by the storage provider)
 TrStoppedObs ==
@@ -125,7 +133,7 @@ TrStoppedObs ==
     /\ Note(IF Ev.handles # 0 THEN "C04.L3.handles" ELSE "")
     /\ good' = SetOf(Ev.good)
     /\ l' = l + 1 /\ KeepCfg
-    /\ UNCHANGED <<status, have, stale, peers, downloads, files, doVerify, stopDue, startDue, verifyDue, finalActive, vphase>>
+    /\ UNCHANGED <<status, have, stale, peers, downloads, files, doVerify, addr, parked, stopDue, startDue, verifyDue, finalActive, vphase>>
 
 \* @obligation C04.L4  completed bytes consistent with the pieces held
 TrStats ==
@@ -142,13 +150,15 @@ TrFinal ==
     /\ Ev.ev = "final"
     /\ IF Ev.phase = "begin"
        THEN /\ finalActive' = ~stale /\ Note(Expired(Ev.t)) /\ ClearExpired(Ev.t) /\ UNCHANGED good
-       ELSE /\ Note(IF finalActive /\ ~(Ev.ok /\ Ev.filesOK) THEN "C04.L6" ELSE "")
+       \* a torrent that does not converge while the peer it has had since Allocating / Verifying is still connected has lost
+       \* what that peer announced: the AddPeer issued before the bitfield was known did not take effect (InvParked)
+       ELSE /\ Note(IF finalActive /\ ~(Ev.ok /\ Ev.filesOK) THEN (IF parked THEN "C04.L5.addpeer" ELSE "C04.L6") ELSE "")
             \* `good` is NOT re-read here: the torrent is running, so the harness' classification of the store is not atomic with
             \* this line's position in the trace (a piece written between the classification and the emit would be lost); the
             \* writes themselves (TrWrite) keep `good` exact while the torrent runs
             /\ finalActive' = FALSE /\ UNCHANGED <<good, stopDue, startDue, verifyDue>>
     /\ l' = l + 1 /\ KeepCfg
-    /\ UNCHANGED <<status, have, stale, peers, downloads, files, doVerify, vphase>>
+    /\ UNCHANGED <<status, have, stale, peers, downloads, files, doVerify, addr, parked, vphase>>
 
 \* @obligation C04.L1  no crash, no hang
 TrProc ==
